@@ -1,6 +1,8 @@
 import MosnVerif.Drive.Util
 import MosnVerif.Drive.C20
 import MosnVerif.Model.ConfigCodec
+import MosnVerif.Model.ConfigDir
+import MosnVerif.Model.ConfigPairs2
 /-!
 Driver of C19.  `<esc>` = every byte outside [A-Za-z0-9_.-] as %XX; JSON is compared key-sorted and compact.
 
@@ -8,13 +10,23 @@ Driver of C19.  `<esc>` = every byte outside [A-Za-z0-9_.-] as %XX; JSON is comp
      real `json.Unmarshal` into a fresh v2.<Struct> then `json.Marshal` (j1), and once more from j1 (j2);
      model: `decode` / `encode` over the shape unfolded from the regenerated field table of <Struct>.
 `pair fc|host|retry <esc wire> => ok:<esc j1>:<esc j2> | err`   the three custom pairs (real methods vs `fcU/fcM`, …).
+`pair cw|ra|rt|cb <esc wire> => …`   ClusterWeight, RouteAction, Router (metadata wrappers over the regenerated field tables),
+                                      CircuitBreakers; `pair ln <esc wire> tcp=<r>/<rr>,udp=…,unix=… => …` Listener, with the resolver's
+                                      answers for the address (`ok<esc>` | `err`) and for its own answer.
 `fix <Struct> <esc wire> => ok:<esc j1>:<esc j2> | err`        every v2 struct incl. custom marshalers (predicate only).
 `dur =<esc s> => ok:<esc formatted> | err`                      `time.ParseDuration` + `String()` vs `parseDur` / `fmtDur`.
 `sample <esc path> => unloadable:<why> | ok:<h1>:<h2>:lost<n>`  hashes of the key-sorted, name-sorted first and second dump, and
                                                                  the number of scalars of the input the first dump no longer has
 `gen <n> => unloadable:<why> | ok:<h1>:<h2>:lost<n>`            the same for a generated configuration.
+`dynpair cl|vh init=<hex file names> items=<hex name>.<id>,… => ok:<hex file names after the dump, sorted>:<items read back, sorted> | fail:<stage>`
+     `ClusterManagerConfig` / `RouterConfiguration` in directory mode, items in this order (clock stamps shown as T<k>);
+     model: `marshalDynamic` / `unmarshalDynamic` with the regenerated file-name operations.
+`dyn|dynnul <mode> cl=<items> vh=<items> => ok:<cl0>/<vh0>:<cl1>/<vh1>:<h1>:<h2> | fail:<stage>`
+     whole path (load, dump rewriting the directories, reload, second dump): the items of the effective configuration after
+     the first load and after the reload, hashes of dump + directory documents after the first and second dump.
 Property predicate (implementation tokens only): `j1 = j2` resp. `h1 = h2 ∧ n = 0` — dump ∘ load is stable after the
-first pass and drops nothing.
+first pass and drops nothing; directory mode: the items read back are exactly the items dumped (`dynpair`: and one
+`.json` file per item is left), `dyn`: before and after the reload, and `h1 = h2`.
 -/
 namespace MosnVerif.Drive.C19
 open MosnVerif.Drive MosnVerif.Model MosnVerif.Model.ConfigCodec MosnVerif.Model.GoDuration
@@ -74,8 +86,73 @@ def verdict (model : Option (String × String)) (impl : Option (String × String
   let shown := (match model with | none => "err" | some (a, _) => a)
   s!"{if agree then "A" else "D"} {if spec then "S" else "V"} {(shown.take 200).toString.replace " " "_"}"
 
+/-! ## directory mode -/
+
+open MosnVerif.Model.ConfigDir in
+/-- items `<hex name>.<id>` of a `k=<list>` token -/
+def parseItems (tok : String) : Option (List (List UInt8 × String)) :=
+  if tok == "-" then some [] else
+  (tok.splitOn ",").mapM (fun it =>
+    match it.splitOn "." with
+    | [h, id] => (unhex h).map (fun n => (n, id))
+    | _ => none)
+
+def itemTok (it : List UInt8 × String) : String := s!"{hex it.1}.{it.2}"
+
+def itemsTok (its : List (List UInt8 × String)) : String :=
+  if its.isEmpty then "-" else ",".intercalate (sortStrings (its.map itemTok))
+
+/-- the clock of the model: item `i` with an empty name reads `T<k>`, k = number of empty names before it -/
+def clockOf (its : List (List UInt8 × String)) (i : Nat) : List UInt8 :=
+  84 :: ConfigDir.dec ((its.take i).filter (fun it => it.1.isEmpty)).length
+
+/-- model of dump + reload of one directory: the files left (sorted) and the items read back (sorted) -/
+def dirCycle (ops : List MosnVerif.Model.DirTypes.NameOp) (init : List (List UInt8)) (its : List (List UInt8 × String)) :
+    Option (List String × List (List UInt8 × String)) :=
+  let enc : Nat → Json := fun i => .num (toString i)
+  let dcd : Json → Option Nat := fun j => match j with | .num l => l.toNat? | _ => none
+  let idx := List.range its.length
+  match ConfigDir.marshalDynamic ops enc (fun i => (its.getD i ([], "")).1) (clockOf its) (init.map (fun n => (n, ConfigDir.Body.empty))) idx with
+  | none => none
+  | some d =>
+    match ConfigDir.unmarshalDynamic dcd MosnVerif.Gen.ConfigDir.readExt d with
+    | none => none
+    | some l => some (sortStrings (d.map (fun f => hex f.1)), l.map (fun i => its.getD i ([], "")))
+
+def hasJsonSuffix (hexName : String) : Bool := hexName.endsWith "2e6a736f6e"
+
 def tlsShape : Shape := (looseShapeOf "TLSConfig").getD .hole
 def filterShape : Shape := (shapeOf "Filter").getD .hole
+
+/-- a metadata wrapper over the regenerated field table of config struct `s` -/
+def metaPair (s key w : String) (impl : List String) : String :=
+  match embFields s, getJson w, implPair impl with
+  | some fs, some w, some im =>
+    let i := fs.indexOf key
+    if metaAt fs i then verdict (cycle2 (metaU fs i) (metaM fs i) w) im else "E E no-metadata-member-in-the-regenerated-table"
+  | _, _, _ => "E E bad-case"
+
+/-- `tcp=<r>/<rr>,udp=…,unix=…` with `<r>` = `ok<esc>` | `err` | `-` -/
+def parseOracle (tok : String) : Option (List (String × Option String × Option String)) :=
+  (tok.splitOn ",").mapM (fun e =>
+    match e.splitOn "=" with
+    | [n, rs] =>
+      match rs.splitOn "/" with
+      | [a, b] =>
+        let one (t : String) : Option (Option String) :=
+          if t == "err" || t == "-" then some none
+          else if t.startsWith "ok" then (C20.unescStr (t.drop 2).toString.toList).map some else none
+        match one a, one b with
+        | some x, some y => some (n, x, y)
+        | _, _ => none
+      | _ => none
+    | _ => none)
+
+/-- the resolver as the case reports it: the answer for the listener's address, and the answer for that answer -/
+def resolverOf (tbl : List (String × Option String × Option String)) (n a : String) : Option String :=
+  match tbl.find? (fun e => e.1 == n) with
+  | some (_, r1, r2) => if r1 == some a then r2 else r1
+  | none => none
 
 def run (caseToks impl : List String) : String :=
   match caseToks with
@@ -96,6 +173,19 @@ def run (caseToks impl : List String) : String :=
     match getJson w, implPair impl with
     | some w, some im => verdict (cycle2 retryU retryM w) im
     | _, _ => "E E bad-case"
+  | ["pair", "cw", w] => metaPair "ClusterWeightConfig" "metadata_match" w impl
+  | ["pair", "ra", w] => metaPair "RouterActionConfig" "metadata_match" w impl
+  | ["pair", "rt", w] => metaPair "RouterConfig" "metadata" w impl
+  | ["pair", "cb", w] =>
+    match shapeOf "Thresholds", getJson w, implPair impl with
+    | some th, some w, some im => verdict (cycle2 (cbU th) (cbM th) w) im
+    | _, _, _ => "E E bad-case"
+  | ["pair", "ln", w, oracle] =>
+    match embFields "ListenerConfig", getJson w, implPair impl, parseOracle oracle with
+    | some fs, some w, some im, some tbl =>
+      let ia := fs.indexOf "address"
+      verdict (cycle2 (lnU fs ia (fs.indexOf "network") (resolverOf tbl)) (lnM fs ia) w) im
+    | _, _, _, _ => "E E bad-case"
   | ["fix", _, _] =>
     match implPair impl with
     | some none => "A S err"
@@ -116,6 +206,41 @@ def run (caseToks impl : List String) : String :=
         let spec := (match im with | none => true | some f => (parseDur f).map fmtDur == some f)
         s!"{if model == im then "A" else "D"} {if spec then "S" else "V"} {(model.getD "err").replace " " "_"}"
     | _, _ => "E E bad-case"
+  | ["dynpair", what, initTok, itemsT] =>
+    let ops := if what == "cl" then MosnVerif.Gen.ConfigDir.clusterNameOps else MosnVerif.Gen.ConfigDir.vhostNameOps
+    match (if (initTok.drop 5).toString == "" then some [] else ((initTok.drop 5).toString.splitOn ",").mapM unhex), parseItems (itemsT.drop 6).toString, impl with
+    | some init, some its, [t] =>
+      let model := (match dirCycle ops init its with
+        | some (files, back) => s!"ok:{",".intercalate files}:{itemsTok back}"
+        | none => "fail")
+      let want := itemsTok its
+      let spec := (match t.splitOn ":" with
+        | ["ok", files, back] =>
+          let fl := if files == "-" then [] else files.splitOn ","
+          back == want && fl.length == its.length && fl.all hasJsonSuffix
+        | _ => false)
+      let agree := model == t || (model == "fail" && t.startsWith "fail:")
+      s!"{if agree then "A" else "D"} {if spec then "S" else "V"} {(model.take 200).toString}"
+    | _, _, _ => "E E bad-case"
+  | [kind, mode, clTok, vhTok] =>
+    if kind != "dyn" && kind != "dynnul" then "E E unknown-kind" else
+    match parseItems (clTok.drop 3).toString, parseItems (vhTok.drop 3).toString, impl with
+    | some cl, some vh, [t] =>
+      let dynCl := (mode.splitOn "cl").length > 1
+      let dynVh := (mode.splitOn "rt").length > 1
+      let mcl := if dynCl then (dirCycle MosnVerif.Gen.ConfigDir.clusterNameOps [] cl).map (·.2) else some cl
+      let mvh := if dynVh then (dirCycle MosnVerif.Gen.ConfigDir.vhostNameOps [] vh).map (·.2) else some vh
+      let model := (match mcl, mvh with
+        | some a, some b => s!"{itemsTok a}/{itemsTok b}"
+        | _, _ => "fail")
+      let want := s!"{itemsTok cl}/{itemsTok vh}"
+      match t.splitOn ":" with
+      | ["ok", a0, a1, h1, h2] =>
+        let spec := a0 == want && a1 == want && h1 == h2
+        s!"{if model == a1 then "A" else "D"} {if spec then "S" else "V"} {(model.take 200).toString}"
+      | "fail" :: _ => s!"{if model == "fail" then "A" else "D"} V {(model.take 200).toString}"
+      | _ => "E E bad-impl"
+    | _, _, _ => "E E bad-case"
   | "sample" :: _ | "gen" :: _ =>
     match impl with
     | [t] =>
